@@ -195,4 +195,4 @@ Definition run_with (atomic : bool) (c : list Z) : list Z * st :=
       run atomic (fuel_of c) (skipn m (tl r1)) (init o a)
   end.
 
-Definition run_case (c : list Z) : list Z := fst (run_with true c).
+Definition run_direct (c : list Z) : list Z := fst (run_with true c).   (* the direct-processSignal cases; Disp.v defines run_case *)
